@@ -91,6 +91,9 @@ def to_formula(v, facts, fname):
             finally:
                 _GUARD[0] -= catches_assembler_error(v)
         raise AnalysisError('predicate {}: a failing evaluation makes the predicate {!r}'.format(fname, v[2][1]))
+    if k == 'call' and v[1] == 'is_int' and len(v[2]) == 1 and v[2][0] == ('attr', ('attr', INST, 'imm'), 'expr'):
+        # the text of the operand is an integer literal (not a name, not an expression)
+        return ('cmp', '==', ('ISLITERAL',), ('const', True))
     if k == 'call' and v[1] == 'isinstance' and len(v[2]) == 2 and v[2][0] == ('attr', INST, 'imm') and v[2][1] == ('name', 'Arithmetic'):
         return ('cmp', '==', ('ISARITH',), ('const', True))
     if k == 'call' and v[1] == 'isinstance' and len(v[2]) == 2 and v[2][0] == ('attr', INST, 'imm') and v[2][1] == ('name', 'Offset'):
@@ -196,6 +199,10 @@ def to_term(v, facts, fname):
         if len(v[2]) >= 3 and v[2][2][0] == 'name' and v[2][2] != e and v[2][2][1] != 'labels':
             return ('IMMC', v[2][2][1])
         return ('IMM',)
+    if v[0] == 'call' and v[1] == 'int' and v[2] and v[2][0] == ('attr', ('attr', i, 'imm'), 'expr') and len(v[2]) + len(v[3]) == 2 \
+            and ((len(v[2]) == 2 and v[2][1] == C(0)) or (v[3] and v[3][0] == ('base', C(0)))):
+        # the integer the operand's text spells: label-independent (and a ValueError for anything that is not a literal)
+        return ('IMMC', '<literal>')
     if v[0] == 'bin' and v[1] == '%':
         return ('mod', to_term(v[2], facts, fname), to_term(v[3], facts, fname))
     if v[0] == 'bin' and v[1] in ('+', '-', '*', '<<') and is_const(v[2]) and is_const(v[3]):
